@@ -24,7 +24,7 @@ from ser import Ids, Ser, Unsupported, rat, env_text, bits_to_float
 from props import c13 as _c13
 
 LEAN_MODULE = "Optyx.Props.C12"
-EXTRA_MODULES = ["Optyx.Props.PinsC12"]   # transcription anchors (harness/source_pins.py)
+EXTRA_MODULES = ["Optyx.Props.PinsC12", "Optyx.Props.BuildTie"]   # transcription anchors (harness/source_pins.py)
 THEOREMS = [
     "Optyx.Props.C12.denote_substParams",
     "Optyx.Props.C12.grad_substParams",
@@ -35,6 +35,8 @@ THEOREMS = [
     "Optyx.Props.C12.param_refinement_partial",
     "Optyx.Props.C12.hess_call_substParams",
     "Optyx.Props.C12.param_refinement",
+    "Optyx.Props.BuildTie.compile_step",
+    "Optyx.Props.BuildTie.compileVec_step",
     "Optyx.Props.PinsC12.anchors",
 ]
 ASSUMPTIONS = [
